@@ -360,6 +360,12 @@ Definition step (spoll : Z) (s : ost) (l : label) : option ost :=
       else None
   end.
 
+(* one complete pass of daemon_killer over this memory (pause: every second; exit: once): the memory is listed, its daemons are
+   snapshotted, a stop_daemon is started for each of them *)
+Definition ksnap_sers (s : ost) : list nat := if o_known s then map (fun kv => i_ser (snd kv)) (o_running s) else [].
+Definition kpass_labels (why : reason) (now : Z) (s : ost) : list label :=
+  LKEnter :: LKSnap :: map (fun kv => LKStart (fst kv) (i_ser (snd kv)) why now) (o_running s).
+
 Fixpoint run (spoll : Z) (s : ost) (tr : list label) : option ost :=
   match tr with
   | [] => Some s
@@ -407,6 +413,32 @@ Fixpoint timer_tail (guarded : bool) (c : tcfg) (reset_after : bool) (fuel : nat
          | O => None
          | S f => let '(p', n) := tstep guarded c reset_after p in
                   match timer_tail guarded c reset_after f p' with Some m => Some (n + m)%nat | None => None end
+         end
+  end.
+
+(* ---------------------------------------------------------------- _daemon once its stopper is set *)
+
+(* `while not stopper.is_set() and not state.done:` invoke; patch; `if state.delay: await aiotime.sleep(state.delay, wakeup=...)`.
+   Program points: *)
+Inductive dpoint :=
+| DTop                         (* the while condition is about to be evaluated *)
+| DAfterRun (delayed : bool)   (* after the invocation and the patch; `delayed` = state.delay is set (temporary error / retry) *)
+| DExit.
+
+Definition dstep (p : dpoint) : dpoint * nat (* sleep() calls made, none of which suspends *) :=
+  match p with
+  | DTop => (DExit, 0%nat)
+  | DAfterRun true => (DTop, 1%nat)
+  | DAfterRun false => (DTop, 0%nat)
+  | DExit => (DExit, 0%nat)
+  end.
+
+Fixpoint daemon_tail (fuel : nat) (p : dpoint) : option nat :=
+  match p with
+  | DExit => Some 0%nat
+  | _ => match fuel with
+         | O => None
+         | S f => let '(p', n) := dstep p in match daemon_tail f p' with Some m => Some (n + m)%nat | None => None end
          end
   end.
 
